@@ -264,7 +264,7 @@ def len_of(eng, st, v):
     if isinstance(v, StrV) and v.text is not None:
         return z3.BitVecVal(len(v.text.encode()), 64)
     if isinstance(v, Opaque):
-        return z3.BitVec(v.uid + '#len', 64)
+        return z3.BitVec(v.uid.lstrip('*') + '#len', 64)
     if isinstance(v, StrV):
         return z3.BitVec(f'len({v.sym})', 64)
     raise MirError(f'len of {vrepr(v)}')
@@ -465,7 +465,8 @@ def m_unwrap(eng, st, call):
 
 def m_unwrap_or(eng, st, call):
     name = method_name(call.fn)
-    kind = 'Option' if 'Option' in call.fn.split('::' + name)[0] else 'Result'
+    mk = re.search(r'(Option|Result)::<', call.fn)          # the outer type (a Result<Option<..>, E> is a Result)
+    kind = mk.group(1) if mk else ('Option' if 'Option' in call.fn.split('::' + name)[0] else 'Result')
     out = []
     for s2, vn, p in split_enum(eng, st, call.args[0], kind):
         if vn in ('Some', 'Ok'):
@@ -797,7 +798,7 @@ def materialise_seq(eng, st, v, elem_ty=None):
         return [(st, SeqV([Agg('tuple', None, None, [k, x]) if not v.is_set else k for k, x in v.entries]))]
     if not isinstance(v, Opaque):
         raise MirError(f'iteration over {vrepr(v)}')
-    n = z3.BitVec(v.uid + '#len', 64)
+    n = z3.BitVec(v.uid.lstrip('*') + '#len', 64)
     from .engine import elem_type
     et = elem_ty or elem_type(v.ty)
     out = []
